@@ -233,6 +233,8 @@ mod detail {
             smallvec![0; 1 + deep_nodes.len() / usize::BITS as usize];
         debug_assert!(deep_nodes.len() <= tracker.max_len());
         for &idx in &prio_inds {
+            #[cfg(exmex_verif)]
+            crate::verif::point(crate::verif::Site::ToDeepStep);
             let shift_left = tracker.get_previous(idx);
             let shift_right = tracker.consume_next(idx);
 
@@ -314,6 +316,8 @@ mod detail {
         let mut numbers = nodes
             .iter()
             .map(|node| {
+                #[cfg(exmex_verif)]
+                crate::verif::point(crate::verif::Site::FlatLoadNode);
                 node.unary_op.apply(match &node.kind {
                     FlatNodeKind::Num(n) => n.clone(),
                     FlatNodeKind::Var(idx) => vars[*idx].clone(),
@@ -365,6 +369,8 @@ mod detail {
         let mut numbers = nodes
             .iter()
             .map(|node| {
+                #[cfg(exmex_verif)]
+                crate::verif::point(crate::verif::Site::FlatLoadNode);
                 node.unary_op.apply(match &node.kind {
                     FlatNodeKind::Num(n) => n.clone(),
                     FlatNodeKind::Var(idx) => {
@@ -503,6 +509,8 @@ mod detail {
             Ok(FlatNode::from_kind(kind))
         };
         while idx_tkn < parsed_tokens.len() {
+            #[cfg(exmex_verif)]
+            crate::verif::point(crate::verif::Site::FlatBuildStep);
             match &parsed_tokens[idx_tkn] {
                 ParsedToken::Op((op_idx, op)) => {
                     if is_binary(op, idx_tkn, parsed_tokens)? {
@@ -736,6 +744,8 @@ where
             }
         }
         for (i, &bin_op_idx) in self.prio_indices.iter().enumerate() {
+            #[cfg(exmex_verif)]
+            crate::verif::point(crate::verif::Site::FlatFoldStep);
             let num_idx = num_inds[i];
             let node_1 = &self.nodes[num_idx];
             let node_2 = &self.nodes[num_idx + 1];
@@ -985,6 +995,8 @@ where
     let mut flat_ops = FlatOpVec::<T>::new();
 
     for (node_idx, node) in deep_expr.nodes().iter().enumerate() {
+        #[cfg(exmex_verif)]
+        crate::verif::point(crate::verif::Site::FlattenNode);
         match node {
             DeepNode::Num(num) => {
                 let flat_node = FlatNode::from_kind(FlatNodeKind::Num(num.clone()));
